@@ -32,6 +32,11 @@ impl<X: Default> Default for Arc<X> {
 impl<X> Arc<X> {
     /// the allocation was created by this very call (no other handle, strong or weak, can refer to it)
     pub uninterp spec fn fresh(&self) -> bool;
+    // Arc::into_inner: Some for exactly the handle that was the last strong one (sequentially: iff the count is 1)
+    #[verifier::external_body]
+    pub fn into_inner(this: Self) -> (r: Option<X>)
+        ensures r is Some == (this.strong() == 1), r is Some ==> r->Some_0 == this.pointee()
+    { unimplemented!() }
     // Arc::get_mut: Some iff this is the only handle of any kind
     #[verifier::external_body]
     pub fn get_mut(this: &mut Self) -> (r: Option<&mut X>)
